@@ -243,7 +243,7 @@ def run(tier):
     ]
     vlib.log("C14 %s: %d lattice cases x %d seeds = %d calls, %d records validated by Lapack.tla, %d complaints, %d process crashes"
              % (tier, len(cases), nseeds, len(conc), ntr, len(bad), len(crashed)))
-    return rep.finish(level="trace_validation",
+    return rep.finish(level="model_checking",
                       rule="LapackGen.tla enumerates routine x element type x orientation x padding x sizes 1..%d (rectangular for geqrf/gesvd) x triangle x "
                            "planted pivot position; each case runs on %d seeded data sets with seeded paddings; Lapack.tla validates the before/after buffers "
                            "(guards, padding, other triangle), the returned view and the factorization identity of every call; non-trivial = accepted call on a "
